@@ -136,6 +136,16 @@ def handleTr (toks : List String) : String :=
     | _, _, _, _ => "bad-op"
   | _ => "bad-op"
 
-def C05.handlers : List (String × (List String → String)) := [("tr", handleTr)]
+/-- `rid <nthreads> <k> <fork>`: sampling of the real random id generator.  The theorems take "the generator returns
+    non-zero, pairwise distinct ids" (`GoodGen`) as a hypothesis; what that hypothesis predicts for any sample is: no
+    duplicate, no zero id, no clash between parent and child after a fork. -/
+def handleRid : List String → String
+  | [nt, k, f] =>
+    match nt.toNat?, k.toNat? with
+    | some nt, some k => if nt = 0 ∨ nt > 8 ∨ k = 0 ∨ k > 64 ∨ (f ≠ "0" ∧ f ≠ "1") then "bad-op" else "dups=0 zero=0 forkclash=0"
+    | _, _ => "bad-op"
+  | _ => "bad-op"
+
+def C05.handlers : List (String × (List String → String)) := [("tr", handleTr), ("rid", handleRid)]
 
 end Driver
